@@ -42,6 +42,19 @@ impl<T: Scalar> Outcome<T> {
     pub fn prove(&mut self, name: impl Into<String>, l: T, rel: Rel, r: T) {
         self.goals.push(goal(name, l, rel, r));
     }
+    /// goal between positive terms built from products, quotients and constant powers: decided in log space
+    pub fn prove_log(&mut self, name: impl Into<String>, l: T, rel: Rel, r: T) {
+        let mut g = goal(name, l, rel, r);
+        g.loglin = true;
+        self.goals.push(g);
+    }
+    /// disjunctive goal: at least one of the relations holds
+    pub fn prove_any(&mut self, name: impl Into<String>, mut rels: Vec<(T, Rel, T)>) {
+        let (l, rel, r) = rels.remove(0);
+        let mut g = goal(name, l, rel, r);
+        g.alts = rels;
+        self.goals.push(g);
+    }
     pub fn prove_scaled(&mut self, name: impl Into<String>, l: T, rel: Rel, r: T, scale: T) {
         let mut g = goal(name, l, rel, r);
         g.scale = Some(scale);
@@ -557,7 +570,7 @@ pub fn check_harness<H: Harness>(h: &H, cfg: &RunCfg) -> PartResult {
             v
         };
         // builds one query: goal roots + relevant conditions (optionally only those below `below`)
-        let build = |roots: &[u32], cuts: &HashMap<u32, Cut>, below: Option<u32>, neg_goal: Option<&dyn Fn(&Emitted) -> String>, all_conds: bool, pow: Option<PowEnc>| -> (String, Vec<String>, Vec<(String, String, u32)>) {
+        let build = |roots: &[u32], cuts: &HashMap<u32, Cut>, below: Option<u32>, neg_goal: Option<&dyn Fn(&Emitted) -> String>, all_conds: bool, pow: Option<PowEnc>, loglin: bool| -> (String, Vec<String>, Vec<(String, String, u32)>) {
             let conds = mk_conds(cuts);
             let mut vars: BTreeSet<String> = BTreeSet::new();
             for &r in roots {
@@ -596,6 +609,23 @@ pub fn check_harness<H: Harness>(h: &H, cfg: &RunCfg) -> PartResult {
             opts.cuts = cuts.clone();
             if let Some(pw) = pow {
                 opts.pow = pw;
+            }
+            if loglin {
+                let e = emit_loglin(nodes, &all_roots, cuts, "l");
+                // conditions with a side that has no logarithm (zero, negative constants) are dropped
+                let asserts: Vec<String> = conds
+                    .iter()
+                    .enumerate()
+                    .filter(|(k, c)| used[*k] && e.names.contains_key(&c.nodes[0]) && e.names.contains_key(&c.nodes[1]))
+                    .map(|(_, c)| (c.smt)(&e))
+                    .collect();
+                let ok = roots.iter().all(|r| e.names.contains_key(r));
+                if !ok {
+                    panic!("SYMX-INTERNAL: log-linear goal with a non-positive constant side");
+                }
+                let ng = neg_goal.map(|f| f(&e));
+                let text = build_query("(set-logic QF_LRA)\n", &e.text, &asserts, ng.as_deref(), &[]);
+                return (text, vec![], vec![]);
             }
             let e = emit(nodes, &all_roots, &opts);
             let asserts: Vec<String> = conds.iter().enumerate().filter(|(k, _)| used[*k]).map(|(_, c)| (c.smt)(&e)).collect();
@@ -691,8 +721,25 @@ pub fn check_harness<H: Harness>(h: &H, cfg: &RunCfg) -> PartResult {
                 &nocuts
             };
             let (l, r, rel) = (g.lhs.0, g.rhs.0, g.rel);
-            let ng = move |e: &Emitted| rel_smt(rel, e.n(l), e.n(r), fp);
-            if l == r && kind != 3 {
+            let alts: Vec<(u32, Rel, u32)> = g.alts.iter().map(|(a, rl, b)| (a.0, *rl, b.0)).collect();
+            let alts2 = alts.clone();
+            let ng = move |e: &Emitted| {
+                if alts2.is_empty() {
+                    rel_smt(rel, e.n(l), e.n(r), fp)
+                } else {
+                    let mut parts = vec![rel_smt(rel, e.n(l), e.n(r), fp)];
+                    for (a, rl, b) in &alts2 {
+                        parts.push(rel_smt(*rl, e.n(*a), e.n(*b), fp));
+                    }
+                    format!("(or {})", parts.join(" "))
+                }
+            };
+            let mut goal_roots: Vec<u32> = vec![l, r];
+            for (a, _, b) in &alts {
+                goal_roots.push(*a);
+                goal_roots.push(*b);
+            }
+            if l == r && kind != 3 && alts.is_empty() {
                 // hash-consed terms: the two sides are the same term
                 const_goals.borrow_mut().push(ConstGoal { path: pi, name: g.name.clone(), holds: matches!(rel, Rel::Eq | Rel::Le), twin: kind == 1 });
                 return vec![];
@@ -702,7 +749,7 @@ pub fn check_harness<H: Harness>(h: &H, cfg: &RunCfg) -> PartResult {
                 return vec![];
             }
             let no_vars = leaf_names(nodes, l, cuts).is_empty() && leaf_names(nodes, r, cuts).is_empty();
-            if no_vars && kind != 3 {
+            if no_vars && kind != 3 && alts.is_empty() {
                 // both sides constant: decide exactly, no query (a false constant goal means
                 // "this path must be infeasible" and is settled by the feasibility verdict)
                 let cv = |i: u32| match &nodes[i as usize] {
@@ -721,7 +768,7 @@ pub fn check_harness<H: Harness>(h: &H, cfg: &RunCfg) -> PartResult {
                     return vec![];
                 }
             }
-            let (text, mv, obl) = build(&[l, r], cuts, None, Some(&ng), no_vars, g.pow);
+            let (text, mv, obl) = build(&goal_roots, cuts, None, Some(&ng), no_vars, g.pow, g.loglin);
             queries.push(Query { label: format!("{} path{} {}", h.name(), pi, g.name), text, timeout_s: timeout, model_vars: mv, expect_sat: Some(kind == 1 || kind == 3) });
             kinds.push(match kind {
                 0 => QKind::Goal { path: pi, name: g.name.clone() },
@@ -755,7 +802,7 @@ pub fn check_harness<H: Harness>(h: &H, cfg: &RunCfg) -> PartResult {
                 let ng = move |e: &Emitted| con2.replace("{}", e.n(node));
                 // cuts created earlier (smaller node index) may be used
                 let lower: HashMap<u32, Cut> = cutmap.iter().filter(|(k, _)| **k < node).map(|(k, v)| (*k, v.clone())).collect();
-                let (text, mv, obl) = build(&[node], &lower, None, Some(&ng), false, Some(h.pow_for_side_conditions()));
+                let (text, mv, obl) = build(&[node], &lower, None, Some(&ng), false, Some(h.pow_for_side_conditions()), false);
                 queries.push(Query { label: format!("{} path{} cut {} #{}", h.name(), pi, c.name, k), text, timeout_s: timeout, model_vars: mv, expect_sat: Some(false) });
                 kinds.push(QKind::CutJustify { path: pi, name: format!("cut {} {}", c.name, con) });
                 for (d, f, id) in obl {
@@ -773,7 +820,7 @@ pub fn check_harness<H: Harness>(h: &H, cfg: &RunCfg) -> PartResult {
             for g in &c.rels {
                 let (l, r, rel) = (g.lhs.0, g.rhs.0, g.rel);
                 let ng = move |e: &Emitted| rel_smt(rel, e.n(l), e.n(r), fp);
-                let (text, mv, obl) = build(&[l, r], &lower, None, Some(&ng), false, None);
+                let (text, mv, obl) = build(&[l, r], &lower, None, Some(&ng), false, None, false);
                 queries.push(Query { label: format!("{} path{} {}", h.name(), pi, g.name), text, timeout_s: timeout, model_vars: mv, expect_sat: Some(false) });
                 kinds.push(QKind::CutJustify { path: pi, name: g.name.clone() });
                 for (d, f, id) in obl {
@@ -815,7 +862,7 @@ pub fn check_harness<H: Harness>(h: &H, cfg: &RunCfg) -> PartResult {
                     _ => format!("(> {} 0.0)", e.n(arg)),
                 };
                 let lower: HashMap<u32, Cut> = cutmap.iter().filter(|(k, _)| **k < id).map(|(k, v)| (*k, v.clone())).collect();
-                let (text, mv, _) = build(&[arg], &lower, Some(id), Some(&ng), false, Some(h.pow_for_side_conditions()));
+                let (text, mv, _) = build(&[arg], &lower, Some(id), Some(&ng), false, Some(h.pow_for_side_conditions()), false);
                 queries.push(Query { label: format!("{} path{} defined {}", h.name(), pi, d), text, timeout_s: timeout, model_vars: mv, expect_sat: Some(false) });
                 kinds.push(QKind::Defined { path: pi, desc: d });
             }
